@@ -4,7 +4,6 @@
 //! use-after-free rather than a lucky read).
 
 use crate::exec::{hex, unhex};
-use crate::oracle;
 use memchr::memmem::{FindIter, FindRevIter, Finder, FinderRev};
 
 #[derive(Clone, Debug, PartialEq)]
@@ -52,10 +51,15 @@ pub struct HistStats {
 pub fn run_history(h: &History, st: &mut HistStats) -> Result<(), String> {
     let needle_model: Vec<u8> = h.needle.clone();
     let hays = &h.hays;
-    let fwd: Vec<Vec<usize>> = hays.iter().map(|x| oracle::greedy_fwd(x, &needle_model)).collect();
-    let rev: Vec<Vec<usize>> = hays.iter().map(|x| oracle::greedy_rev(x, &needle_model)).collect();
-    let efind: Vec<Option<usize>> = hays.iter().map(|x| oracle::naive_find(x, &needle_model)).collect();
-    let erfind: Vec<Option<usize>> = hays.iter().map(|x| oracle::naive_rfind(x, &needle_model)).collect();
+    // The reference is the crate's own answer "in isolation": a fresh finder (resp. a fresh,
+    // uninterrupted iterator) per haystack. C16 is about independence from history and about
+    // clones / borrowed / owned forms behaving like the original - not about the answers being
+    // the right ones (that is C03/C04/C08).
+    let cap = |x: &Vec<u8>| x.len() + 2;
+    let fwd: Vec<Vec<usize>> = hays.iter().map(|x| Finder::new(&needle_model).find_iter(x).take(cap(x)).collect()).collect();
+    let rev: Vec<Vec<usize>> = hays.iter().map(|x| FinderRev::new(&needle_model).rfind_iter(x).take(cap(x)).collect()).collect();
+    let efind: Vec<Option<usize>> = hays.iter().map(|x| Finder::new(&needle_model).find(x)).collect();
+    let erfind: Vec<Option<usize>> = hays.iter().map(|x| FinderRev::new(&needle_model).rfind(x)).collect();
 
     let mut owned_f: Vec<Finder<'static>> = Vec::new();
     let mut owned_r: Vec<FinderRev<'static>> = Vec::new();
@@ -72,7 +76,7 @@ pub fn run_history(h: &History, st: &mut HistStats) -> Result<(), String> {
             st.searches += 1;
             let r = $f.find(&hays[$hi]);
             if r != efind[$hi] {
-                return Err(format!("{} #{}: find(haystack {}) = {:?}, naive = {:?}", $what, $k, $hi, r, efind[$hi]));
+                return Err(format!("{} #{}: find(haystack {}) = {:?}, but a fresh finder returns {:?}", $what, $k, $hi, r, efind[$hi]));
             }
         }};
     }
@@ -81,7 +85,7 @@ pub fn run_history(h: &History, st: &mut HistStats) -> Result<(), String> {
             st.searches += 1;
             let r = $f.rfind(&hays[$hi]);
             if r != erfind[$hi] {
-                return Err(format!("{} #{}: rfind(haystack {}) = {:?}, naive = {:?}", $what, $k, $hi, r, erfind[$hi]));
+                return Err(format!("{} #{}: rfind(haystack {}) = {:?}, but a fresh finder returns {:?}", $what, $k, $hi, r, erfind[$hi]));
             }
         }};
     }
@@ -91,7 +95,7 @@ pub fn run_history(h: &History, st: &mut HistStats) -> Result<(), String> {
             let r = $slot.it.next();
             let e = $model[$slot.hay].get($slot.pos).copied();
             if r != e {
-                return Err(format!("{} #{} over haystack {}: item {} = {:?}, model = {:?}", $what, $k, $slot.hay, $slot.pos, r, e));
+                return Err(format!("{} #{} over haystack {}: item {} = {:?}, but a fresh uninterrupted iterator yields {:?}", $what, $k, $slot.hay, $slot.pos, r, e));
             }
             if e.is_some() {
                 $slot.pos += 1;
